@@ -3,6 +3,7 @@ import J5V.Compile.ConvertProofs
 import J5V.Compile.Entity
 import J5V.Generated.CompileconstsFacts
 import J5V.Compile.EntityProofs
+import J5V.Compile.EntitySvc
 import J5V.Compile.PathProofs
 /-!
 # C17 — entity declarations expand to a complete, mutually consistent API
@@ -351,6 +352,172 @@ theorem C17_query_paths_skeleton (pkg : Str) (e : Entity) (bparts : List Str)
         ((getKeys e).map fun k => b!"{" ++ toSnake k.name ++ b!"}") ++ [b!"events"])) :=
   query_paths pkg e bparts hb hbne hbc hk
 
+/-- **Keys message on the skeleton.** When the Keys object converts without error, its message has
+one field per declared key, in declaration order, numbered from 1 and named `snake(key)`, and the
+field of every primary key (`keyInfo k = some true`: a `key`-typed field marked primary) carries
+`(buf.validate.field).required` — whether or not the declaration says `required`. -/
+theorem C17_keys_skeleton (c : Ctx) (e : Entity)
+    (h : (convDecl c [] false [] (keysObject e)).errs = 0) :
+    declMsgOf c [] false [] (keysObject e) ∈ (convDecl c [] false [] (keysObject e)).msgs ∧
+    (declMsgOf c [] false [] (keysObject e)).fields.map (fun f => (f.name, f.number)) =
+      e.keys.zipIdx.map (fun (k, i) => (toSnake k.prop.name, i + 1)) ∧
+    (∀ i (hi : i < e.keys.length) (f : FieldSkel),
+      (declMsgOf c [] false [] (keysObject e)).fields[i]? = some f →
+      keyInfo e.keys[i] = some true → f.req = true) := by
+  refine ⟨convDecl_msgOf _ _ _ _ _, ?_, ?_⟩
+  · rw [declMsgOf_fields c [] false [] (keysObject e) h]
+    simp only [keysObject, ObjDecl.props, List.nil_append, List.zipIdx_map, List.map_map]
+    apply List.map_congr_left
+    intro x _
+    rfl
+  · intro i hi f hf hk
+    have herr : (bProps c ([] ++ [componentName e b!"Keys"]) false 1 ([] ++ e.keys.map (·.prop))).eff.errs = 0 := by
+      have := h
+      simp only [keysObject] at this
+      rw [convDecl_errs] at this
+      omega
+    have hget := bProps_flds_getElem c _ false 1 _ herr i (by simpa using hi)
+    simp only [declMsgOf, declMsg, mkMsg, MsgSkel.fields, keysObject, ObjDecl.name, ObjDecl.props] at hf
+    rw [hget] at hf
+    simp only [List.nil_append, List.getElem_map] at hf
+    cases hp : (e.keys[i]).prop with
+    | mk name req opt schema =>
+      simp only [keyInfo, hp, Property.schema] at hk
+      cases schema with
+      | key fmt ek rules lr =>
+        simp only [Option.some.injEq] at hk
+        cases ek with
+        | nokey => simp [EntKey.isPrimary] at hk
+        | ek kind tenant =>
+          cases kind with
+          | primary b =>
+            cases b with
+            | true =>
+              rw [hp] at hf
+              exact C17_primary_key_required c _ false _ name req opt fmt tenant rules lr f hf
+            | false => simp [EntKey.isPrimary] at hk
+          | plain => simp [EntKey.isPrimary] at hk
+          | foreign _ _ => simp [EntKey.isPrimary] at hk
+      | _ => simp at hk
+
+/-- **Command services on the skeleton.** Every declared command service (methods with a request
+and a verb) is one proto service of the `.service` file, named `<Name>Command` + `Service`
+(`<C>CommandService` when unnamed; the suffix is not doubled), annotated with the same entity name
+as the query service, with one rpc per declared method in declaration order (input
+`<Method>Request`, the declared verb, path below `/<base>/c` or `/<base>/<declared base>`). -/
+theorem C17_command_service_skeleton (c : Ctx) (pkg : Str) (e : Entity) (hv : ValidEntity e)
+    (s : Service) (hs : s ∈ e.commands)
+    (hreq : ∀ m ∈ s.methods, m.request.isSome = true) (hverb : ∀ m ∈ s.methods, m.verb ≠ .unspecified) :
+    serviceSvcs c (commandService pkg e s) =
+      [{ name := commandName e s ++ b!"Service", sopt := .command (toSnake e.name),
+         methods := s.methods.map (methodSkelOf (some (commandBase pkg e s))) }] ∧
+    (∀ x ∈ serviceSvcs c (commandService pkg e s),
+      x ∈ ((expand pkg e).filter (·.target = .service)).flatMap (itemSvcs c)) ∧
+    (s.methods.map (methodSkelOf (some (commandBase pkg e s)))).map
+        (fun m => (m.name, m.input, m.http.map (·.verb))) =
+      s.methods.map (fun m => (m.name, m.name ++ b!"Request", some m.verb)) := by
+  refine ⟨?_, ?_, ?_⟩
+  · unfold serviceSvcs builtMethods
+    simp only [commandService]
+    rw [built_methods c _ s.methods hreq hverb]
+    rfl
+  · intro x hx
+    rw [(entity_files c pkg e hv).2.2.1]
+    apply List.mem_append_right
+    exact List.mem_flatMap.mpr ⟨_, List.mem_map.mpr ⟨s, hs, rfl⟩, hx⟩
+  · simp only [List.map_map]
+    apply List.map_congr_left
+    intro m _
+    rfl
+
+/-- **The publish topic on the skeleton.** One proto service `<C>PublishTopic` in the `.topic`
+file, role `event`, entity `<package>.<C>`, one method `<C>Event` taking `<C>EventMessage`, whose
+message has the properties metadata, keys, event (the event oneof), data, status
+(`C17_topic_message_skeleton`: numbered 1…5). -/
+theorem C17_publish_topic_skeleton (c : Ctx) (pkg : Str) (e : Entity) (hv : ValidEntity e) :
+    (topicNodes (publishTopic pkg e)).map topicSvc =
+      [{ name := toCamel (toCamel e.name ++ b!"Publish") ++ b!"Topic",
+         sopt := .topic (toSnake (toCamel e.name ++ b!"Publish")) .event (pkg ++ b!"." ++ toCamel e.name),
+         methods := [{ name := toCamel e.name ++ b!"Event", input := toCamel e.name ++ b!"Event" ++ b!"Message",
+                       output := googleProtoEmptyType, http := none, mopt := .none }] }] ∧
+    (∀ x ∈ (topicNodes (publishTopic pkg e)).map topicSvc,
+      x ∈ ((expand pkg e).filter (·.target = .topic)).flatMap (itemSvcs c)) ∧
+    (topicNodes (publishTopic pkg e)).flatMap (topicMsgs c) =
+      [declMsg c [] false [] (toCamel e.name ++ b!"Event" ++ b!"Message")
+        (publishProps e) [] none] := by
+  refine ⟨rfl, ?_, rfl⟩
+  intro x hx
+  rw [(entity_files c pkg e hv).2.2.2]
+  exact List.mem_append_left _ hx
+
+/-- **One upsert topic per summary, on the skeleton.** `<C><Summary>Topic` (`<C>SummaryTopic` for the
+unnamed summary), role `upsert`, entity `<package>.<C>`, one method named like the topic, whose
+message starts with the implicit `upsert` metadata field followed by the summary's properties. -/
+theorem C17_summary_topic_skeleton (c : Ctx) (pkg : Str) (e : Entity) (hv : ValidEntity e)
+    (s : Summary) (hs : s ∈ e.summaries) :
+    (topicNodes (summaryTopic pkg e s)).map topicSvc =
+      [{ name := toCamel (summaryTopicName e s) ++ b!"Topic",
+         sopt := .topic (toSnake (summaryTopicName e s)) .upsert (pkg ++ b!"." ++ toCamel e.name),
+         methods := [{ name := summaryTopicName e s, input := summaryTopicName e s ++ b!"Message",
+                       output := googleProtoEmptyType, http := none, mopt := .none }] }] ∧
+    (∀ x ∈ (topicNodes (summaryTopic pkg e s)).map topicSvc,
+      x ∈ ((expand pkg e).filter (·.target = .topic)).flatMap (itemSvcs c)) ∧
+    (topicNodes (summaryTopic pkg e s)).flatMap (topicMsgs c) =
+      [declMsg c [] false upsertPrepend (summaryTopicName e s ++ b!"Message") s.props [] none] := by
+  refine ⟨rfl, ?_, rfl⟩
+  intro x hx
+  rw [(entity_files c pkg e hv).2.2.2]
+  apply List.mem_append_right
+  exact List.mem_flatMap.mpr ⟨_, List.mem_map.mpr ⟨s, hs, rfl⟩, hx⟩
+
+/-- **Names, kinds and annotations on the skeleton**: the five messages of the main file are named
+`<C>Keys / Data / State / EventType / Event`; Keys, Data, State, Event are objects carrying the PSM
+annotation with the entity name and their own part, EventType is a oneof without annotation. -/
+theorem C17_annotation_skeleton (c : Ctx) (e : Entity) :
+    [ declMsgOf c [] false [] (keysObject e), declMsgOf c [] false [] (dataObject e),
+      declMsgOf c [] false [] (stateObject e), declMsgOf c [] true [] (eventOneof e),
+      declMsgOf c [] false [] (eventObject e) ].map (fun m => (m.name, m.kind, m.psm)) =
+    [ (toCamel e.name ++ toCamel b!"Keys", .object, some ⟨toSnake e.name, .keys⟩),
+      (toCamel e.name ++ toCamel b!"Data", .object, some ⟨toSnake e.name, .data⟩),
+      (toCamel e.name ++ toCamel b!"State", .object, some ⟨toSnake e.name, .state⟩),
+      (toCamel e.name ++ toCamel b!"EventType", .oneof, none),
+      (toCamel e.name ++ toCamel b!"Event", .object, some ⟨toSnake e.name, .event⟩) ] := rfl
+
+/-- **Topic messages on the skeleton**: when they convert without error, the publish message has the
+fields `metadata = 1, keys = 2, event = 3, data = 4, status = 5`, and a summary's upsert message has
+`upsert = 1` followed by the summary's properties numbered from 2 in declaration order. -/
+theorem C17_topic_message_skeleton (c : Ctx) (e : Entity) (s : Summary)
+    (hp : (convDecl c [] false [] (.mk (toCamel e.name ++ b!"Event" ++ b!"Message")
+      (publishProps e) [] none)).errs = 0)
+    (hs : (convDecl c [] false upsertPrepend
+      (.mk (summaryTopicName e s ++ b!"Message") s.props [] none)).errs = 0) :
+    (declMsg c [] false [] (toCamel e.name ++ b!"Event" ++ b!"Message")
+        (publishProps e) [] none).fields.map
+        (fun f => (f.name, f.number)) =
+      [(b!"metadata", 1), (b!"keys", 2), (b!"event", 3), (b!"data", 4), (b!"status", 5)] ∧
+    (declMsg c [] false upsertPrepend (summaryTopicName e s ++ b!"Message") s.props [] none).fields.map
+        (fun f => (f.name, f.number)) =
+      (b!"upsert", 1) :: s.props.zipIdx.map (fun (p, i) => (toSnake p.name, i + 2)) := by
+  constructor
+  · have := declMsgOf_fields c [] false [] _ hp
+    simp only [declMsgOf, ObjDecl.name, ObjDecl.props, ObjDecl.nested, ObjDecl.psm] at this
+    rw [this]
+    have h1 : toSnake b!"metadata" = b!"metadata" := by decide
+    have h2 : toSnake b!"keys" = b!"keys" := by decide
+    have h3 : toSnake b!"event" = b!"event" := by decide
+    have h4 : toSnake b!"data" = b!"data" := by decide
+    have h5 : toSnake b!"status" = b!"status" := by decide
+    simp [publishProps, List.zipIdx_cons, Property.name, h1, h2, h3, h4, h5]
+  · have := declMsgOf_fields c [] false upsertPrepend _ hs
+    simp only [declMsgOf, ObjDecl.name, ObjDecl.props, ObjDecl.nested, ObjDecl.psm] at this
+    rw [this]
+    have h1 : toSnake b!"upsert" = b!"upsert" := by decide
+    simp only [upsertPrepend, List.cons_append, List.nil_append, List.zipIdx_cons, List.map_cons,
+      Property.name, h1, Nat.zero_add, List.cons.injEq, true_and]
+    rw [List.zipIdx_eq_map_add (l := s.props) (i := 1)]
+    simp [List.map_map, Function.comp, Nat.add_assoc]
+    intro a b _; omega
+
 /-! ## Non-vacuity -/
 
 def exEntity : Entity :=
@@ -390,6 +557,26 @@ example : ∀ p ∈ [b!"foo", b!"v1", b!"foo_bar"], CleanPart p ∧ p.head? ≠ 
   simp only [List.mem_cons, List.mem_nil_iff, or_false] at hp
   rcases hp with rfl | rfl | rfl <;>
     exact ⟨⟨by decide, by decide, by decide, by decide⟩, by decide⟩
+
+/-- an entity with a command service and a named summary: valid, compiles as a package (so every
+`errs = 0` hypothesis above holds for it in the context the loader builds), its command methods have
+requests and verbs, its first key is primary -/
+def exEntity2 : Entity :=
+  { exEntity with
+    commands := [{ name := some b!"FooBar", basePath := none, methods :=
+      [{ name := b!"CreateFooBar", verb := .post, path := b!":fooId/create",
+         request := some [.mk b!"fooId" true false (.string [] false)], response := some [] }] }],
+    summaries := [{ name := b!"brief", props := [.mk b!"title" false false (.string [] false)] }] }
+
+def exBundle : Bundle :=
+  { pkgs := [{ name := b!"foo.v1", files := [.j5s b!"foo/v1/e.j5s" [] [.entity exEntity2] b!"foo.v1"] }] }
+
+example : ValidEntity exEntity2 := ⟨by decide, by decide⟩
+example : (compilePkg exBundle b!"foo.v1").isOk = true := by decide
+example : (convDecl { resolve := fun _ _ => none } [] false [] (keysObject exEntity2)).errs = 0 := by decide
+example : ∀ s ∈ exEntity2.commands, (∀ m ∈ s.methods, m.request.isSome = true) ∧
+    (∀ m ∈ s.methods, m.verb ≠ .unspecified) := by decide
+example : keyInfo exEntity2.keys[0] = some true := by decide
 
 /-- the witness of the counterexample: `FooA` -/
 example : toCamel (b!"FooA" ++ b!"State") = b!"FooAstate" ∧ toCamel b!"FooA" ++ b!"State" = b!"FooAState" := by
